@@ -102,3 +102,41 @@ pub fn probe(args: &[String]) {
         Err(_) => println!("{}", json!({"library_panic": true})),
     }
 }
+
+/// `vh cderead --list L`: runs cdedb::read on every entry of the list file and prints what it returned
+pub fn cderead(args: &[String]) {
+    std::panic::set_hook(Box::new(|_| {}));
+    let mut list = None;
+    for i in 0..args.len() {
+        if args[i] == "--list" && i + 1 < args.len() {
+            list = Some(args[i + 1].clone());
+        }
+    }
+    let v: serde_json::Value = serde_json::from_str(&std::fs::read_to_string(list.unwrap()).unwrap()).unwrap();
+    let mut out = Vec::new();
+    for e in v.as_array().unwrap() {
+        let path = e["file"].as_str().unwrap().to_string();
+        let track = e["track"].as_u64();
+        let (ic, ia) = (e["ic"].as_bool().unwrap_or(false), e["ia"].as_bool().unwrap_or(false));
+        let r = std::panic::catch_unwind(move || {
+            let f = std::fs::File::open(&path).unwrap();
+            match cdecao::io::cdedb::read(f, track, ic, ia, None, None) {
+                Err(m) => json!({"err": m}),
+                Ok((ps, cs, amb)) => {
+                    let (eid, tid, _tn, _nic, nia) = amb.verif_fields();
+                    json!({
+                        "participants": ps.iter().map(|p| { let (_i, d, n, ch) = cdecao::verif::participant_fields(p); json!({"dbid": d, "name": n, "choices": ch}) }).collect::<Vec<_>>(),
+                        "courses": cs.iter().map(|c| { let (_i, d, n, mn, mx, ins, fb, ob, fx, hid) = cdecao::verif::course_fields(c);
+                            json!({"dbid": d, "name": n, "min": mn, "max": mx, "instr": ins, "fixed": fx, "hidden": hid, "factor": f32::from_bits(fb), "offset": f32::from_bits(ob)}) }).collect::<Vec<_>>(),
+                        "quality": amb.external_assignment_quality_info.as_ref().map(|q| { let (ni, pens) = q.verif_fields(); json!([ni, pens]) }),
+                        "event_id": eid, "track_id": tid, "ign_regs": nia})
+                }
+            }
+        });
+        out.push(match r {
+            Ok(v) => v,
+            Err(_) => json!({"panic": true}),
+        });
+    }
+    println!("{}", serde_json::Value::Array(out));
+}
